@@ -190,7 +190,16 @@ impl<'ctx> Ledger<'ctx> {
                 };
                 bal.add_amount(posting.account, delta.into_owned());
             }
-            bal.round(ctx);
+            // with up-to-date conversion, rounding happens only after the conversion.
+            if !matches!(
+                query.conversion,
+                Some(Conversion {
+                    strategy: ConversionStrategy::UpToDate { .. },
+                    ..
+                })
+            ) {
+                bal.round(ctx);
+            }
             Cow::Owned(bal)
         };
         match query.conversion {
